@@ -107,6 +107,7 @@ W["compute_jth_combination"] = dict(
 # compute_jth_inversion_sequence(n, m, j): falling-factorial radix n, n-1, ..., n-m+1
 W["compute_jth_inversion_sequence"] = dict(
     id="compute_jth_inversion_sequence", target="sweetpea._internal.combinatorics:compute_jth_inversion_sequence", prop=["C13"],
+    ms=30000,          # nonlinear invariant: nominally 0.4 s, but z3 answered `unknown` once with all 16 workers busy; a third of this budget per attempt
     params={"n": "int", "m": "int", "j": "int"},
     requires=["0 <= m", "m <= n", "j >= 0"],
     ghost={"P": ("int", "1"), "Wf": ("list[int]", "[]")},        # Wf[t] = n (n-1) ... (n-t+1)
